@@ -42,3 +42,5 @@ def run(ctx, rep):
     more6.rule_alloc_range(mod, rep, floor=100)
     more6.rule_lusup_static(mod, rep)
     more4.rule_workfreeall_order(mod, rep)      # the free-space test of the user work space (StackFull) is only as good as stack.used
+    from ..rules import more6 as _m6b
+    _m6b.rule_snode_boundary(mod, rep)
